@@ -4,7 +4,6 @@ package queue
 
 import (
 	"context"
-	"encoding/json"
 	"fmt"
 	"os"
 	"sort"
@@ -151,12 +150,6 @@ func c15Check(sc c15Scenario) func(x *vsync.Execution, wd vsync.World) (string, 
 	}
 }
 
-type c15Replay struct {
-	Scenario c15Scenario `json:"scenario"`
-	Choices  []int       `json:"choices"`
-	Trace    []string    `json:"trace,omitempty"`
-}
-
 func c15Scenarios(thorough bool) []c15Scenario {
 	var out []c15Scenario
 	prods := [][][]int{{{1}}, {{1, 2}}, {{1}, {2}}, {{1, 2}, {3}}, {{1, 2, 3}}}
@@ -184,90 +177,17 @@ func TestVerifC15(t *testing.T) {
 			t.Fail()
 		}
 	}()
-	if rp := os.Getenv("VERIF_REPLAY"); rp != "" {
-		c15DoReplay(t, rep, rp)
-		return
-	}
-	maxBound := 3
+	maxBound, budget := 3, 8*time.Minute
 	if vrep.Thorough() {
-		maxBound = 6
+		maxBound, budget = 6, 25*time.Minute
 	}
-	shard, shards := vsync.ShardFromEnv()
-	deadline := time.Now().Add(8 * time.Minute)
-	if vrep.Thorough() {
-		deadline = time.Now().Add(25 * time.Minute)
-	}
+	var scs []vsync.Scenario
 	for _, sc := range c15Scenarios(vrep.Thorough()) {
-		found := false
-		for bound := 0; bound <= maxBound && !found; bound++ {
-			e := &vsync.Explorer{Opt: vsync.Options{Bound: bound, MaxSteps: 400, Shard: shard, Shards: shards, Deadline: deadline}, Setup: c15Setup(sc), Check: c15Check(sc)}
-			sigs := map[string]bool{}
-			e.OnViol = func(x *vsync.Execution, v *vsync.Verdict) {
-				if sigs[v.Sig] {
-					return
-				}
-				// believe a schedule-dependent failure only if the same schedule fails again, 5 times
-				for i := 0; i < 5; i++ {
-					_, _, v2 := e.Replay(x.Choices)
-					if v2 == nil || v2.Sig != v.Sig {
-						rep.Violation("HARNESS/flaky", fmt.Sprintf("scenario %s schedule %v: verdict not reproducible (%v vs %v)", sc.Name, x.Choices, v, v2), nil)
-						return
-					}
-				}
-				sigs[v.Sig] = true
-				found = true
-				x2, _, _ := e.Replay(x.Choices)
-				rep.Violation(v.Sig, fmt.Sprintf("scenario [%s], %d deviation(s), schedule %v: %s\ntrace: %s", sc.Name, bound, x.Choices, v.Desc, strings.Join(x2.Trace, " ")),
-					c15Replay{Scenario: sc, Choices: x.Choices, Trace: x2.Trace})
-			}
-			e.Run()
-			st := e.Stats
-			rep.AddStates(st.Nodes)
-			rep.AddTransitions(st.StepsTotal)
-			rep.AddTraces(st.Executions)
-			for o, n := range st.Outcomes {
-				_ = n
-				rep.Eval(sc.Name + " => " + o)
-			}
-			rep.Add("executions", st.Executions)
-			if int64(st.MaxDepth) > extra(rep, "max_depth") {
-				rep.Set("max_depth", int64(st.MaxDepth))
-			}
-			if st.Capped {
-				rep.NotExhaustive(fmt.Sprintf("scenario %s bound %d stopped at the time cap after %d executions", sc.Name, bound, st.Executions))
-			}
-			if bound == maxBound || found {
-				rep.Sample(map[string]interface{}{"scenario": sc.Name, "bound_completed": st.BoundDone, "executions_at_this_bound": st.Executions, "distinct_outcomes": len(st.Outcomes),
-					"first_schedule": st.FirstChoices, "last_schedule": st.LastChoices, "blocked_sets_at_termination": len(st.BlockedSets)})
-			}
-		}
+		scs = append(scs, vsync.Scenario{Name: sc.Name, Setup: c15Setup(sc), Check: c15Check(sc)})
 	}
-	rep.Set("preemption_bound", int64(maxBound))
-	c15Priority(rep)
-}
-
-func extra(rep *vrep.Report, k string) int64 {
-	v, _ := rep.Extra[k].(int64)
-	return v
-}
-
-func c15DoReplay(t *testing.T, rep *vrep.Report, path string) {
-	b, err := os.ReadFile(path)
-	if err != nil {
-		t.Fatal(err)
-	}
-	var f struct {
-		Replay c15Replay `json:"replay"`
-	}
-	if err := json.Unmarshal(b, &f); err != nil {
-		t.Fatal(err)
-	}
-	sc := f.Replay.Scenario
-	e := &vsync.Explorer{Opt: vsync.Options{MaxSteps: 400}, Setup: c15Setup(sc), Check: c15Check(sc)}
-	x, o, v := e.Replay(f.Replay.Choices)
-	fmt.Printf("replay scenario [%s] schedule %v\ntrace: %s\noutcome: %s\n", sc.Name, f.Replay.Choices, strings.Join(x.Trace, " "), o)
-	if v != nil {
-		rep.Violation(v.Sig, v.Desc, f.Replay)
+	vsync.ExploreScenarios(rep, "SQ", scs, maxBound, 400, budget)
+	if os.Getenv("VERIF_REPLAY") == "" && os.Getenv("VERIF_RACE_PASS") == "" {
+		c15Priority(rep)
 	}
 }
 
